@@ -173,7 +173,9 @@ CHECKS = {
     'C07': dict(
         text=("Lean theorems: frame lemma and non-interference (C07_disjoint: any operations on other families leave a disjoint family's "
               "dump unchanged — induction over operation lists), witness of the shared-nested leak; same machine/correspondence as C06; "
-              "oracle: behaviour of G with F defined/configured/exercised == behaviour of G alone (forked children), all orders"),
+              "oracle: behaviour of G with F defined/configured/exercised == behaviour of G alone (forked children), all orders, "
+              "three-family histories ordered by first use (unrelated bystander used last, late binds), families sharing only the "
+              "identity of a configuration object (one key-mapping constant / one LoadMeta object)"),
         technique='Lean 4 proof over a hand state machine + forked-history correspondence + isolation oracle', ref='4 C07'),
     'C08': dict(
         text=("Lean theorems: split_object_path parses what a token list prints (parse/print round trip by induction with a tokenizer "
@@ -182,7 +184,8 @@ CHECKS = {
               "form, first listed alias is the dump key, casing round trips (lisp: every canonical name; camel / pascal: exact safe "
               "classes with witnesses outside them, and the property's own name class). Tie: exhaustive small-alphabet + token-grammar "
               "correspondence of casing and paths, end-to-end alias / path classes on both engines vs an independent reference and an "
-              "alias model (op c08), dump-before-load orders"),
+              "alias model (op c08), dump-before-load orders, a failed first use (forward-referenced class defined late) repeated, "
+              "the end-to-end clauses re-judged in child interpreters under python -O / -OO / -X dev / -X utf8"),
         technique='Lean 4 proof over hand models + exhaustive / grammar-based differential correspondence + end-to-end oracle', ref='4 C08'),
 }
 
